@@ -77,20 +77,20 @@ func (v symVal) String() string {
 type symExec struct {
 	// globals: the package-level variables the interpreted code reads (tables, sets), as built by the
 	// package initialiser, interpreted leniently once per run (initGlobals)
-	globals    map[*ssa.Global]*svCell
-	slotCells  map[string]*svCell // cells standing for configuration slots (&Config.Parsers.JSON)
-	lenient    bool               // initialiser mode: what is outside the vocabulary is opaque, not a failure
-	prog       *Prog
+	globals   map[*ssa.Global]*svCell
+	slotCells map[string]*svCell // cells standing for configuration slots (&Config.Parsers.JSON)
+	lenient   bool               // initialiser mode: what is outside the vocabulary is opaque, not a failure
+	prog      *Prog
 	// fieldLoad answers a load of a field reached from a named opaque value (`r.Method` of parameter r)
 	fieldLoad func(path string) (symVal, bool)
 	env       map[ssa.Value]symVal
-	arrays  map[*ssa.Alloc]*[]svCell // local arrays
-	cells   map[*ssa.Alloc]*svCell   // local scalars
-	oracle  func(callee string, args []symVal) (symVal, bool)
-	problem string
-	panics  string
-	depth   int
-	ret     []symVal
+	arrays    map[*ssa.Alloc]*[]svCell // local arrays
+	cells     map[*ssa.Alloc]*svCell   // local scalars
+	oracle    func(callee string, args []symVal) (symVal, bool)
+	problem   string
+	panics    string
+	depth     int
+	ret       []symVal
 }
 
 func newSymExec(oracle func(callee string, args []symVal) (symVal, bool)) *symExec {
